@@ -224,10 +224,18 @@ class HState:
         out = {}
         for k, v in self.w.snapshot_tree("mail").items():
             out["disk:" + k] = v
-        for t, rows in self.w.db_dump().items():
-            for i, row in enumerate(rows):
-                row = {k: v for k, v in row.items() if k not in ("mtime",)}
-                out[f"db:{t}:{i}"] = repr(sorted(row.items()))
+        # database: what identifies mailboxes and messages (derived bookkeeping such as counters,
+        # \\Marked, mtimes may be refreshed by the resync any command triggers)
+        db = self.w.db_dump()
+        ids = {}
+        for row in db.get("mailboxes", []):
+            ids[row.get("id")] = row.get("name")
+            out[f"db:mailbox:{row.get('name')}"] = repr((row.get("uid_vv"), row.get("subscribed"), row.get("uids"), row.get("msg_keys"),
+                                                         row.get("next_uid"), "\\Noselect" in (row.get("attributes") or "")))
+        for row in db.get("sequences", []):
+            if row.get("name") in ("Recent",):
+                continue
+            out[f"db:seq:{ids.get(row.get('mailbox_id'))}:{row.get('name')}"] = row.get("sequence")
         return out
 
     def _check_reported(self, sn: str, where: str, whole_cache: bool = False):
@@ -771,6 +779,8 @@ class HState:
         # (c) the MH side
         if "C13" in checks:
             self.compare_mh()
+        if "C17" in checks:
+            self.observe_namespace()
 
     def observe_list(self, sname="O"):
         """LIST "" * and LSUB "" * as {name: frozenset(attributes)} (minus \\Marked/\\Unmarked)."""
@@ -851,6 +861,52 @@ class HState:
             rec["msgs"] = ms
             out[name] = rec
         return out
+
+    LIST_MENU = [("", "*"), ("", "%"), ("", "a/%"), ("a/", "%"), ("", "INBOX"), ("", "inbox"), ("", "a*"), ("", "%/%"),
+                 ("", "a b"), ("", "x+y"), ("", "q[1]"), ("", "*b*"), ("a/", "*"), ("", "a")]
+
+    def observe_namespace(self, sname="N"):
+        """C17: LIST and LSUB for a menu of (reference, pattern) against the namespace model."""
+        from .refmodel import namespace as NS
+
+        o = self.sess(sname)
+        o.on_resp = None
+        for ref, pat in self.cfg.get("list_menu", self.LIST_MENU):
+            for cmd in ("LIST", "LSUB"):
+                r, resps = o.do(f"{cmd} {_q(ref)} {_q(pat)}")
+                if r is None or r.typ != "OK":
+                    self.fail("C17.list-failed", {"cmd": cmd, "ref": ref, "pat": pat}, "OK", str(r))
+                    continue
+                got = {}
+                for x in resps:
+                    if x.kind == "untagged" and x.typ == cmd and len(x.data) >= 3:
+                        nm = x.data[2]
+                        nm = bytes(nm).decode("latin-1") if isinstance(nm, bytes) else str(nm)
+                        at = {str(a) for a in (x.data[0] or [])}
+                        if nm in got:
+                            self.fail("C17.listed-twice", {"cmd": cmd, "pat": pat}, None, nm)
+                        got[nm] = at
+                want = NS.list_expect(self.model, ref, pat, lsub=(cmd == "LSUB"))
+                if set(got) != set(want):
+                    self.fail("C17.list-names", {"cmd": cmd, "ref": ref, "pat": pat,
+                                                 "missing": sorted(set(want) - set(got))[:3], "extra": sorted(set(got) - set(want))[:3]},
+                              sorted(want), sorted(got))
+                    continue
+                if cmd == "LIST":
+                    for nm, w_ in want.items():
+                        at = got[nm]
+                        if ("\\Noselect" in at) != w_["noselect"]:
+                            self.fail("C17.noselect-attr", {"pat": pat, "want": w_["noselect"]}, w_, sorted(at))
+                        if ("\\HasChildren" in at) != w_["haschildren"] or ("\\HasNoChildren" in at) == w_["haschildren"]:
+                            self.fail("C17.haschildren-attr", {"pat": pat, "want": w_["haschildren"]}, w_, sorted(at))
+        # a deleted mailbox is not selectable; an existing one is
+        for name in self.cfg.get("names", ()):
+            mb = self.model.mb(name)
+            r, _ = o.do(f"EXAMINE {_q(name)}")
+            ok = r is not None and r.typ == "OK"
+            want_ok = mb is not None and not mb.noselect
+            if ok != want_ok:
+                self.fail("C17.selectable", {"want": want_ok, "exists": mb is not None}, want_ok, str(r))
 
     def observe_restart_diff(self):
         """C12: observe, restart (orderly), observe again, compare -- no hand-written expectation."""
